@@ -97,7 +97,10 @@ def forge(body, size, k):
 
 
 FILES = [(100, 1, 2, 32), (200, 2, 4, 64), (333, 3, 6, 42), (150, 1, 3, 64), (700, 3, 10, 128), (64, 2, 5, 32), (1000, 4, 8, 250),
-         (90, 2, 2, 1000)]
+         (90, 2, 2, 1000),
+         # (size, k, N, max segment size, number of servers): several shares per server, so that >= k good shares can sit
+         # on fewer than k servers
+         (400, 3, 10, 64, 2), (200, 2, 4, 64, 1), (500, 4, 7, 128, 3), (300, 3, 6, 100, 2)]
 
 
 def sm_of(sharemap, srv_of):
@@ -144,6 +147,7 @@ def compare_post_repair(ctx, rcase, crr, prr, fresh, srv_of, n):
 
 
 PARAM_LINES = ([], [], [])
+DECISION_LINES = ([], [], [])
 
 
 def run_file(ctx, fidx, n_plans, seed, lines, impl, cases, rlines=None, rimpl=None, rcases=None, fixed_plans=None, policy=None):
@@ -152,6 +156,7 @@ def run_file(ctx, fidx, n_plans, seed, lines, impl, cases, rlines=None, rimpl=No
     from allmydata.immutable.filenode import CiphertextFileNode
     from allmydata.immutable.repairer import Repairer
     plines, pimpl, pcases = PARAM_LINES
+    dlines, dimpl, dcases = DECISION_LINES
     rlines = [] if rlines is None else rlines
     rimpl = [] if rimpl is None else rimpl
     rcases = [] if rcases is None else rcases
@@ -160,12 +165,14 @@ def run_file(ctx, fidx, n_plans, seed, lines, impl, cases, rlines=None, rimpl=No
     from allmydata.monitor import Monitor
     C2 = c2()
     rng = random.Random("c45-%s-%s" % (fidx, seed))
-    size, k, n, maxseg = FILES[fidx % len(FILES)]
+    spec = FILES[fidx % len(FILES)]
+    size, k, n, maxseg = spec[:4]
+    nservers = spec[4] if len(spec) > 4 else n
     data = C2.file_data(size, 7000 + fidx)
     mode = verifier_mode()
     hmode = C2.hashtree_mode()
     with grid.Runtime(seed=seed, policy=policy or rng.choice(["random", "random", "fifo"])) as rt:
-        g = grid.Grid(grid.fresh_dir("c45"), rt, num_servers=n, num_clients=2, k=k, happy=1, n=n, max_segment_size=maxseg)
+        g = grid.Grid(grid.fresh_dir("c45"), rt, num_servers=nservers, num_clients=2, k=k, happy=1, n=n, max_segment_size=maxseg)
         try:
             c = g.clients[0]
             res = rt.wait(c.upload(upload.Data(data, convergence=b"c45-convergence!")))
@@ -181,7 +188,7 @@ def run_file(ctx, fidx, n_plans, seed, lines, impl, cases, rlines=None, rimpl=No
                     raw[t] = f.read()
             genuine_items = {t[1]: items(snap[t], size, k) for t in files}
             genuine_body = {t[1]: snap[t] for t in files}
-            srv_of = {g.serverid(i): i for i in range(n)}
+            srv_of = {g.serverid(i): i for i in range(nservers)}
 
             def wait(d):
                 rt.steps = 0
@@ -364,6 +371,28 @@ def run_file(ctx, fidx, n_plans, seed, lines, impl, cases, rlines=None, rimpl=No
                 ctx.count("repair:" + rstate)
                 rcase = dict(case, via_verifycap=via_verifycap, verify=use_verify, repair=rstate)
                 post_files = sorted(g.share_files(si))
+                # (00) the repair decision: a check that is recoverable but not healthy must lead to a repair attempt —
+                # whatever the number of SERVERS the good shares sit on
+                if crr is not None:
+                    pre = crr.get_pre_repair_results()
+                    pre_sm0 = sm_of(pre.get_sharemap(), srv_of)
+                    good_hosts = len({srv for srvs in pre_sm0.values() for srv in srvs})
+                    if pre.is_recoverable() and not pre.is_healthy() and not crr.get_repair_attempted():
+                        ctx.violation("the pre-repair check found %d distinct good shares (k=%d, N=%d) on %d server(s): recoverable and "
+                                      "not healthy, but no repair was attempted" % (len(pre_sm0), k, n, good_hosts), rcase,
+                                      "repair-not-attempted-although-recoverable", {"pre_sharemap": sm_tok(pre_sm0)})
+                    if pre.is_healthy() and crr.get_repair_attempted():
+                        ctx.violation("a repair was attempted on a healthy file", rcase, "repair-attempted-although-healthy")
+                    by_srv = {}
+                    for sh, srvs in sorted(pre_sm0.items()):
+                        for srv in srvs:
+                            by_srv.setdefault(srv, []).append(sh)
+                    dlines.append("repairdecision %d %d %s" % (k, n, ";".join(
+                        "%d:%s:-:-:1" % (srv, ".".join(map(str, shs))) for srv, shs in sorted(by_srv.items())) or "-"))
+                    dimpl.append("attempt=%d" % (1 if crr.get_repair_attempted() else 0))
+                    dcases.append(dict(rcase, pre=sm_tok(pre_sm0)))
+                    ctx.count("repair-decision:%s:hosts%sk" % ("attempt" if crr.get_repair_attempted() else "none",
+                                                               "<" if good_hosts < k else ">="))
                 # (0) the post-repair results against a FRESH verify of the grid as it now is, by a second client
                 if crr is not None and use_verify:
                     prr = crr.get_post_repair_results()
@@ -551,6 +580,18 @@ def run_corpus(ctx, lines, impl, cases, rlines, rimpl, rcases):
     run_file(ctx, 1, 0, CORPUS_SEED, lines, impl, cases, rlines, rimpl, rcases, fixed_plans=[
         {"name": "corrupt-in-place-plus-deleted", "shares": {0: flip("block_hashes", 7), 2: "delete"}},
         {"name": "corrupt-share-hashes-in-place", "shares": {3: flip("share_hashes", 2)}}])
+    # C45-d: >= k good shares left on FEWER than k servers (several shares per server): recoverable, not healthy => repair
+    # FILES: 8=(400,3,10,64) on 2 servers, 9=(200,2,4,64) on 1 server, 10=(500,4,7,128) on 3 servers
+    run_file(ctx, 8, 0, CORPUS_SEED, lines, impl, cases, rlines, rimpl, rcases, fixed_plans=[
+        {"name": "few-hosts-3of10-on-2-deleted", "shares": {0: "delete", 1: "delete"}},
+        {"name": "few-hosts-3of10-on-2-deleted-noverify-vcap", "shares": {4: "delete"}, "verify": False, "via_verifycap": True},
+        {"name": "few-hosts-3of10-on-2-corrupt", "shares": {2: flip("data", 1), 7: "delete"}, "via_verifycap": True}])
+    run_file(ctx, 9, 0, CORPUS_SEED, lines, impl, cases, rlines, rimpl, rcases, fixed_plans=[
+        {"name": "few-hosts-2of4-on-1-deleted", "shares": {3: "delete"}, "verify": False},
+        {"name": "few-hosts-2of4-on-1-corrupt", "shares": {0: flip("block_hashes", 3)}}])
+    run_file(ctx, 10, 0, CORPUS_SEED, lines, impl, cases, rlines, rimpl, rcases, fixed_plans=[
+        {"name": "few-hosts-4of7-on-3", "shares": {0: "delete", 5: flip("ueb", 4)}},
+        {"name": "few-hosts-4of7-on-3-noverify", "shares": {6: "delete"}, "verify": False}])
     ctx.count("corpus-run")
 
 
@@ -580,5 +621,9 @@ def run(ctx):
     ctx.compare("Repairer encoding parameters (k, N, segment size handed to CHKUploader) vs the model's repairParams on the "
                 "validated UEB", pcases, pimpl, ctx.model(plines))
     del plines[:], pimpl[:], pcases[:]
+    dlines, dimpl, dcases = DECISION_LINES
+    ctx.compare("CiphertextFileNode._maybe_repair: repair attempted or not, vs the model's repairDecision on the pre-repair results",
+                dcases, dimpl, ctx.model(dlines))
+    del dlines[:], dimpl[:], dcases[:]
     if cases:
         ctx.sample(cases[0])
